@@ -221,12 +221,13 @@ class SimUser:
     def on_pause(self, body, title):
         self.pauses += 1
         self.in_pause = True
-        fr = sys._getframe(2)      # show -> on_pause -> query_user_for_debug_action
-        while fr is not None and fr.f_code.co_name != 'query_user_for_debug_action':
+        # the debugger's own view of where it stopped: the frame of its prompt routine (found by what it holds, not by
+        # its name). Not finding it is a broken seam of the harness - an error of the machinery, never a verdict.
+        fr = sys._getframe(2)
+        while fr is not None and not all(k in fr.f_locals for k in ('ip', 'op_counter', 'mem')):
             fr = fr.f_back
         if fr is None:
-            self.fail('harness', 'query_user_for_debug_action frame', 'not found')
-            return
+            raise kernel.HarnessError('C15: no caller frame holds ip / op_counter / mem at a debugger pause')
         ip, cnt, mem = fr.f_locals['ip'], fr.f_locals['op_counter'], fr.f_locals['mem']
         self.cur = (cnt, ip, mem)
         reason = 'bp' if ip in self.B else 'step'
@@ -238,14 +239,14 @@ class SimUser:
         if (cnt, ip) != self.expect_pause:
             self.fail('pause-position', list(self.expect_pause), [cnt, ip])
             return
-        mt = re.search(r'(\d+) ops executed', body)
-        ma = re.search(r'Address (0x[0-9a-f]+)', body)
+        # the banner, where it is recognised (its wording is not part of the property: a differently worded banner is
+        # simply not judged; what it says about the position, in the current format, must be true)
+        mt = re.search(r'(?<![\d,._x])(\d+) ops executed', body or '')
+        ma = re.search(r'Address (0x[0-9a-f]+)\b', body or '')
         if mt and int(mt.group(1)) != cnt:
             self.fail('banner-count', cnt, int(mt.group(1)))
         if ma and int(ma.group(1), 16) != ip:
             self.fail('banner-address', ip, int(ma.group(1), 16))
-        if (title == 'Breakpoint') != (ip in self.B):
-            self.fail('banner-title', 'Breakpoint' if ip in self.B else 'Debug Step', title)
         self.check_state('memory-at-pause')
 
     def check_state(self, clause):
@@ -309,10 +310,15 @@ class SimUser:
         self.pending_read = None
         mt = re.search(r'= (\d+)  \(or 0x', body)
         if kind == 'value':
-            if not mt:
-                self.fail('read-value', val, 'no value shown: ' + title)
-            elif int(mt.group(1)) != val:
-                self.fail('read-value', val, int(mt.group(1)))
+            if mt:
+                if int(mt.group(1)) != val:
+                    self.fail('read-value', val, int(mt.group(1)))
+            else:
+                # not the current output format: the answer must at least show the true value, in decimal or hex
+                shown = {int(x, 16) for x in re.findall(r'0[xX][0-9a-fA-F]+', body)} | \
+                        {int(x) for x in re.findall(r'(?<![\w.])\d+(?![\w.])', body)}
+                if val not in shown:
+                    self.fail('read-value', val, 'not shown: ' + str(title) + ': ' + body[:120])
         elif mt:
             self.fail('read-value', 'an error message', int(mt.group(1)))
         self.check_state('memory-after-read')
@@ -348,6 +354,10 @@ class SimUser:
 
     # ---- seam: ask_for_command
     def ask(self, prompt):
+        if not self.in_pause:
+            # a prompt without a recognised banner in front of it (the banner's titles are not part of the property):
+            # being asked for a command IS the pause
+            self.on_pause(None, None)
         self.prompts += 1
         script = self.case.get('commands')
         if script is not None:
